@@ -66,7 +66,7 @@ Definition ST (a : automaton) : Prop :=
 
 Definition TR (a : automaton) (k : Z) (proc : list Z) : Prop :=
   forall f s t, In (f, s, t) (a_trans a) ->
-    0 <= f /\ (f < k \/ (f = k /\ In s proc)) /\
+    0 <= f /\ (f < k \/ (f = k /\ In s proc)) /\ trans_target a f s = Some t /\
     exists st, nth_error (a_states a) (Z.to_nat f) = Some st /\ 0 <= t /\
                nth_error (a_states a) (Z.to_nat t) = Some (mkState (gk st s) None 0) /\ gk st s <> [].
 
@@ -102,8 +102,11 @@ Proof.
     destruct (find_state tgt sts 0) as [j|] eqn:Efind; simpl.
     + apply find_state_some in Efind. destruct Efind as [Hj Hnj]. rewrite Z.sub_0_r in Hnj.
       split; auto. split; auto. split.
-      * intros f s t Hin. cbn [a_states a_trans] in *. apply in_app_or in Hin. destruct Hin as [Hin|[[= <- <- <-]|[]]]; [apply Hweak; auto|].
-        split; auto. split; [right; simpl; auto|]. exists st. rewrite Ekern. repeat split; auto. discriminate.
+      * intros f s t Hin. cbn [a_states a_trans] in *. apply in_app_or in Hin. destruct Hin as [Hin|[[= <- <- <-]|[]]].
+        { destruct (Hweak f s t Hin) as (H1 & H2 & H2t & H3). split; auto. split; auto. split; auto.
+          eapply trans_target_app_l; eauto. }
+        split; auto. split; [right; simpl; auto|]. split; [apply trans_target_new; exact Hfreshtr|].
+        exists st. rewrite Ekern. repeat split; auto. discriminate.
       * intros q st' s Hq Hp Hst' Hs Hne. cbn [a_states a_trans] in *.
         destruct Hp as [Hp|[-> [<-|Hp]]].
         -- destruct (HTOT q st' s Hq (or_introl Hp) Hst' Hs Hne) as [j' Hj']. exists j'. eapply trans_target_app_l; eauto.
@@ -114,10 +117,12 @@ Proof.
       * destruct HST as (rest & E & Hf). exists (rest ++ [tgt]). simpl in E. rewrite E, app_assoc. split; auto.
         apply Forall_app. split; auto.
       * intros f s t Hin. cbn [a_states a_trans] in *. apply in_app_or in Hin. destruct Hin as [Hin|[[= <- <- <-]|[]]].
-        -- destruct (Hweak f s t Hin) as (H1 & H2 & st' & H3 & H4 & H5 & H6). cbn [a_states] in H3, H5. split; auto. split; auto.
+        -- destruct (Hweak f s t Hin) as (H1 & H2 & H2t & st' & H3 & H4 & H5 & H6). cbn [a_states] in H3, H5. split; auto. split; auto.
+           split; [eapply trans_target_app_l; eauto|].
            exists st'. split; [rewrite nth_error_app1; auto; apply nth_error_Some; congruence|]. split; auto.
            split; auto. rewrite nth_error_app1; auto. apply nth_error_Some; congruence.
-        -- split; auto. split; [right; simpl; auto|]. exists st. split; [rewrite nth_error_app1; auto|].
+        -- split; auto. split; [right; simpl; auto|]. split; [apply trans_target_new; exact Hfreshtr|].
+           exists st. split; [rewrite nth_error_app1; auto|].
            split; [lia|]. rewrite Ekern. split; [|discriminate].
            rewrite Nat2Z.id, nth_error_app2, Nat.sub_diag by lia. reflexivity.
       * intros q st' s Hq Hp Hst' Hs Hne. cbn [a_states a_trans] in *.
@@ -209,8 +214,20 @@ Lemma inv_trans q s j : trans_target a q s = Some j ->
                        nth_error (a_states a) (Z.to_nat j) = Some (mkState (gk st s) None 0) /\ gk st s <> [].
 Proof.
   intros H. apply trans_target_In in H. destruct HI as (_ & _ & HTR & _).
-  destruct (HTR q s j H) as (H1 & _ & H3). auto.
+  destruct (HTR q s j H) as (H1 & _ & _ & H3). auto.
 Qed.
+
+Lemma inv_trans_uniq f s t : In (f, s, t) (a_trans a) ->
+  trans_target a f s = Some t /\ 0 <= f < Z.of_nat (length (a_states a)) /\ 0 <= t < Z.of_nat (length (a_states a)).
+Proof.
+  intros H. destruct HI as (_ & _ & HTR & _). destruct (HTR f s t H) as (H1 & _ & H2 & st & H3 & H4 & H5 & _).
+  split; auto.
+  assert ((Z.to_nat f < length (a_states a))%nat) by (apply nth_error_Some; congruence).
+  assert ((Z.to_nat t < length (a_states a))%nat) by (apply nth_error_Some; congruence). lia.
+Qed.
+
+Lemma inv_kind q st : nth_error (a_states a) q = Some st -> s_kind st = 0.
+Proof. destruct HI as (_ & HST & _). intros H. eapply ST_kind; eauto. Qed.
 
 Hypothesis Hrange : forall r, In r (g_rules g) -> g_terms g <= r_lhs r < g_terms g + g_nonterms g.
 
